@@ -35,27 +35,32 @@ type MemSock struct {
 	// OnDelivered is called by the pump after the client has taken a frame from Inbound().
 	OnDelivered func(s knxnet.Service)
 
-	mu      sync.Mutex
-	out     []*OutFrame
-	queue   []knxnet.Service
-	wake    chan struct{}
-	inbound chan knxnet.Service
-	closed  chan struct{}
-	once    sync.Once
-	pumped  chan struct{}
-	nClose  int
-	handing int // 1 while the pump is blocked handing a frame to the client
+	mu            sync.Mutex
+	out           []*OutFrame
+	queue         []knxnet.Service
+	wake          chan struct{}
+	inbound       chan knxnet.Service
+	closed        chan struct{}
+	once          sync.Once
+	pumped        chan struct{}
+	nClose        int
+	handing       int // 1 while the pump is blocked handing a frame to the client
+	inboundClosed bool
 }
 
 // ErrMemSockClosed is returned by Send after Close.
 var ErrMemSockClosed = errors.New("memsock: use of closed socket")
 
 // NewMemSock creates the socket and starts its pump.
-func NewMemSock(local net.Addr) *MemSock {
+func NewMemSock(local net.Addr) *MemSock { return NewMemSockBuffered(local, 0) }
+
+// NewMemSockBuffered is NewMemSock with an Inbound() channel that holds up to n frames (a socket implementation may
+// read ahead: the Socket interface says nothing about buffering). A frame counts as taken when it enters the channel.
+func NewMemSockBuffered(local net.Addr, n int) *MemSock {
 	s := &MemSock{
 		Local:   local,
 		wake:    make(chan struct{}, 1),
-		inbound: make(chan knxnet.Service),
+		inbound: make(chan knxnet.Service, n),
 		closed:  make(chan struct{}),
 		pumped:  make(chan struct{}),
 	}
@@ -65,7 +70,12 @@ func NewMemSock(local net.Addr) *MemSock {
 
 func (s *MemSock) pump() {
 	defer close(s.pumped)
-	defer close(s.inbound)
+	defer func() {
+		s.mu.Lock()
+		s.inboundClosed = true
+		close(s.inbound)
+		s.mu.Unlock()
+	}()
 	for {
 		s.mu.Lock()
 		var next knxnet.Service
@@ -73,6 +83,7 @@ func (s *MemSock) pump() {
 		if have {
 			next = s.queue[0]
 			s.queue = s.queue[1:]
+			s.handing = 1
 		}
 		s.mu.Unlock()
 		if !have {
@@ -85,9 +96,6 @@ func (s *MemSock) pump() {
 		}
 		// Like the real receivers: once a frame has been read it is handed over with a plain blocking
 		// send. Closing the socket does not release a receiver that is blocked here - only a reader does.
-		s.mu.Lock()
-		s.handing = 1
-		s.mu.Unlock()
 		s.inbound <- next
 		s.mu.Lock()
 		s.handing = 0
@@ -101,6 +109,34 @@ func (s *MemSock) pump() {
 // Inject queues a frame for the client (FIFO).
 func (s *MemSock) Inject(svc knxnet.Service) {
 	s.mu.Lock()
+	s.queue = append(s.queue, svc)
+	s.mu.Unlock()
+	select {
+	case s.wake <- struct{}{}:
+	default:
+	}
+}
+
+// InjectDirect is Inject for a socket that reads ahead (NewMemSockBuffered): if nothing is queued in front of it, the
+// frame goes straight into the Inbound() channel's buffer - it is there when the caller returns, as a frame that sits
+// in a kernel buffer is there when the client looks next. Order is preserved.
+func (s *MemSock) InjectDirect(svc knxnet.Service) {
+	s.mu.Lock()
+	if s.inboundClosed {
+		s.mu.Unlock()
+		return
+	}
+	if len(s.queue) == 0 && s.handing == 0 {
+		select {
+		case s.inbound <- svc:
+			s.mu.Unlock()
+			if s.OnDelivered != nil {
+				s.OnDelivered(svc)
+			}
+			return
+		default:
+		}
+	}
 	s.queue = append(s.queue, svc)
 	s.mu.Unlock()
 	select {
